@@ -428,7 +428,7 @@ pub fn run(ctx: &RunCtx) -> PropResult {
     let runf = |c: &CancelCase, d: &Path| run_cancel(c, d, &findings);
     run_replays::<CancelCase, _>(ctx, "cancel", &ctx.verif_dir.join("replays").join("C14"), runf, &mut report);
     let runf = |c: &CancelCase, d: &Path| run_cancel(c, d, &findings);
-    run_generated(ctx, "cancel", ctx.tier.pick(2000, 50_000), cancel_strategy, runf, &sample, &mut report);
+    run_generated(ctx, "cancel", ctx.tier.pick(4000, 50_000), cancel_strategy, runf, &sample, &mut report);
     let runf = |c: &CancelCase, d: &Path| run_cancel(c, d, &findings);
     run_enumerated(ctx, "cancel-k", enumerated(ctx.tier == Tier::Thorough), runf, &sample, &mut report);
     PropResult {
